@@ -64,7 +64,10 @@ def run(wname, src, here, tier, feature_sets):
     cname, title = WITNESSES[wname]
     R = Result(wname, title)
     wdir = os.path.join(here, "witness", cname)
-    labels = ["default"] if tier == "quick" else list(feature_sets)
+    # The auto-trait and API witnesses cover every cargo feature set also in the quick tier: the planner stubs that
+    # replace a compiled-out SIMD planner are public API with their own auto-traits (a `PhantomData<*const T>` in a stub
+    # makes FftPlanner !Send only when `avx` or `sse` is off).
+    labels = list(feature_sets) if (tier != "quick" or wname in ("W-AUTO", "W-API")) else ["default"]
     work = tempfile.mkdtemp(prefix="rfv-wit.")
     try:
         crate = os.path.join(work, cname)
